@@ -158,6 +158,15 @@ static int standard_codes() {
   q = calloc(SIZE_MAX / 2, 4); if (q != NULL) { viol("calloc overflow returned %p", q); return 1; }
   q = malloc(0); if (q == NULL) { viol("malloc(0) returned NULL"); return 1; } free(q);
   if (::operator new(SIZE_MAX - 64, std::nothrow) != NULL) { viol("nothrow new of SIZE_MAX-64 returned non-NULL"); return 1; }
+  /* every nothrow form reports an unsatisfiable request with NULL (no new-handler is installed): plain, array, aligned, aligned array */
+  { const size_t big[] = { (size_t)PTRDIFF_MAX + 1, SIZE_MAX - 64, SIZE_MAX / 2 + 4096 };
+    for (size_t n : big) {
+      if (::operator new[](n, std::nothrow) != NULL) { viol("nothrow new[] of %zu bytes returned non-NULL", n); return 1; }
+      if (::operator new(n, std::align_val_t(64), std::nothrow) != NULL) { viol("aligned nothrow new of %zu bytes returned non-NULL", n); return 1; }
+      if (::operator new[](n, std::align_val_t(4096), std::nothrow) != NULL) { viol("aligned nothrow new[] of %zu bytes returned non-NULL", n); return 1; }
+    }
+    void* ok1 = ::operator new(100, std::align_val_t(64), std::nothrow); if (ok1 == NULL || ((uintptr_t)ok1 % 64) || !f_in_heap(ok1)) { viol("aligned nothrow new(100, 64) = %p", ok1); return 1; } ::operator delete(ok1, std::align_val_t(64));
+  }
   /* (the throwing operator new cannot throw from the C build of mimalloc: it calls the new-handler or aborts by design; not tested) */
   free(NULL); ::operator delete((void*)NULL); if (malloc_usable_size(NULL) != 0) { viol("malloc_usable_size(NULL) != 0"); return 1; }
   return 0;
